@@ -4,8 +4,13 @@ and run our check(s) against it (tools/seeded.py does the work).  Seed ids: <Cxx
 import glob, os, re, subprocess, sys
 pid = sys.argv[1]
 extra = sys.argv[2:]
-out = "/tmp/mut_%s_out" % pid
-wt = "/tmp/mut_%s" % pid
+prefix = "mut"
+if "--dir" in extra:  # e.g. --dir mut2 : second wave of independently written changes
+    i = extra.index("--dir")
+    prefix = extra[i + 1]
+    extra = extra[:i] + extra[i + 2:]
+out = "/tmp/%s_%s_out" % (prefix, pid)
+wt = "/tmp/%s_%s" % (prefix, pid)
 here = os.path.dirname(os.path.abspath(__file__))
 for md in sorted(glob.glob(os.path.join(out, "change*.md"))):
     k = re.search(r"change(\d+)\.md", md).group(1)
@@ -15,7 +20,7 @@ for md in sorted(glob.glob(os.path.join(out, "change*.md"))):
     title = re.sub(r"^#+\s*(Change|change)\s*\d+\s*[-:—–]*\s*", "", title.strip())
     slug = re.sub(r"[^a-z0-9]+", "-", title.lower()).strip("-")[:48].strip("-")
     prop = pid if not pid.startswith("F") else None
-    seed_id = "%s-%s" % (pid, slug or ("change" + k))
+    seed_id = "%s-%s%s" % (pid, "w2-" if prefix != "mut" else "", slug or ("change" + k))
     cmd = [sys.executable, os.path.join(here, "seeded.py"), out, k, wt, pkg, seed_id, pid] + extra
     print("==", " ".join(cmd), flush=True)
     subprocess.run(cmd)
